@@ -105,6 +105,10 @@ def run(chk):
                 r3.findings.pop()
                 r3.ok("ignore_exc left to Client's default False")
 
+    from . import rules_C01, report
+
+    report.include_rules(chk, r3, rules_C01, ("C01.R1",), "a connection on which a call failed is closed by the inner client itself, whatever the pool then does with the client object")
+
     # ---------------- R4/R5 on ObjectPool.get and release
     fields, locks = poolpaths.guarded_fields(prog)
     lock = locks[0]
@@ -153,6 +157,69 @@ def run(chk):
             st = [s.get(k) for k in s.d if isinstance(k, tuple) and k[0] == "stamp"]
             r4.expect(st == ["idle_clock"], "release(silent=%s): _last_used refreshed from the idle clock" % silent, "ObjectPool.release:idle-stamp-not-refreshed", "release() returns an object to the free list without setting _last_used from the idle clock (%s): idle time is measured from checkout, so a healthy connection that was busy for long is closed instead of reused" % (st or "never assigned"), fn=fn2, witness=fmt_trace(t))
         r5.floor("release() success paths (silent=%s)" % silent, n_ok, 1)
+
+    # ---------------- R7 capacity accounting
+    r7 = chk.rule("C09.R7", "capacity: the value compared with max_size is the length of the guarded deque(s), or a counter that is updated on every path where an object enters or leaves the pool; get() cannot fail after it registered the object")
+    pool = prog.cls("ObjectPool")
+    getf = prog.method(pool, "get")
+    cmpn = [n for n in walk_no_nested(getf.node) if isinstance(n, ast.Compare) and any(is_self_attr(x, "max_size") for x in ast.walk(n))]
+    r7.floor("capacity comparisons in get()", len(cmpn), 1)
+    for c in cmpn:
+        other = [x for x in [c.left] + list(c.comparators) if not any(is_self_attr(y, "max_size") for y in ast.walk(x))]
+        src = other[0] if other else None
+        if isinstance(src, ast.Name):
+            defs = [n for n in walk_no_nested(getf.node) if isinstance(n, ast.Assign) and any(isinstance(t, ast.Name) and t.id == src.id for t in n.targets)]
+            src = defs[0].value if len(defs) == 1 else src
+
+        def is_len_of_guarded(e):
+            if isinstance(e, ast.Call) and call_name(e) == "len" and e.args and is_self_attr(e.args[0]) and e.args[0].attr in fields:
+                return True
+            if isinstance(e, ast.BinOp) and isinstance(e.op, ast.Add):
+                return is_len_of_guarded(e.left) and is_len_of_guarded(e.right)
+            return False
+
+        if is_len_of_guarded(src):
+            r7.ok("capacity test uses %s" % node_src(src))
+            continue
+        counter = src.attr if is_self_attr(src) else None
+        if counter is None:
+            r7.fail("ObjectPool.get:capacity-source", "the pool size compared with max_size is `%s`, neither the length of a guarded deque nor a counter attribute" % (node_src(src) if src is not None else None), fn=getf, node=c)
+            continue
+        # a derived counter: every site where an object leaves the pool for good must decrement it in the same block
+        missing = []
+        for m in pool.methods.values():
+            for n in walk_no_nested(m.node):
+                leaves = isinstance(n, ast.Expr) and isinstance(n.value, ast.Call) and call_name(n.value) == "self._after_remove"
+                if not leaves:
+                    continue
+                # inside a `for x in <snapshot>` clean-up loop (clear) the reset happens before the loop: accept a reset
+                # or decrement anywhere earlier in the function; otherwise require one in the same block
+                blk = None
+                par = getattr(n, "_parent", None)
+                for fld in ("body", "orelse", "finalbody"):
+                    if n in getattr(par, fld, []):
+                        blk = getattr(par, fld)
+                upd_same = [x for x in (blk or []) if isinstance(x, (ast.AugAssign, ast.Assign)) and any(is_self_attr(y, counter) for y in ast.walk(x.target if isinstance(x, ast.AugAssign) else x.targets[0]))]
+                upd_any = [x for x in walk_no_nested(m.node) if isinstance(x, (ast.AugAssign, ast.Assign)) and x.lineno < n.lineno and any(is_self_attr(y, counter) and isinstance(y.ctx, ast.Store) for y in ast.walk(x))]
+                in_cleanup_loop = isinstance(par, ast.For)
+                if not upd_same and not (in_cleanup_loop and upd_any) and not (m.name == "destroy" and upd_any):
+                    missing.append((m, n))
+        for m, n in missing:
+            r7.fail("ObjectPool.%s:counter-not-updated:%s" % (m.name, counter), "capacity is checked against the counter self.%s, but ObjectPool.%s discards an object (`%s`) without adjusting it: every connection that leaves the pool this way costs a slot for good, until calls fail with 'Too many objects'" % (counter, m.name, node_src(n, 60)), fn=m, node=n)
+        if not missing:
+            r7.ok("counter self.%s is adjusted wherever an object leaves the pool" % counter)
+    # get(): once the object is registered as used, get() must not fail (the caller never learns about the object)
+    fng, domg, outsg, _ = poolpaths.run_pool_method(prog, "get", fields, lock)
+    leaks = []
+    for s_, e_, t_ in outsg.of("exc"):
+        reg = [k for k in s_.d if isinstance(k, tuple) and k[0] == "in" and "used" in k[1]]
+        if reg:
+            leaks.append((e_, t_))
+    if leaks:
+        e_, t_ = leaks[0]
+        r7.fail("ObjectPool.get:fails-after-registration", "get() can raise (at line %s) after it appended the object to the used deque: the caller never receives the object, so nothing will ever release it and the slot is lost" % e_.origin, fn=fng, line=e_.origin, witness=fmt_trace(t_))
+    else:
+        r7.ok("get(): no exceptional exit after the object was appended to the used deque")
 
     # ---------------- R6 quit destroys on all exits
     r6 = chk.rule("C09.R6", "PooledClient.quit destroys its client explicitly on every exit of the bracket body")
